@@ -67,20 +67,20 @@ DISP_ASSUME = ["coordinates and displacement parameters lie within +-2^22 (call-
                "string layout produced by format!/quote_name after the coordinates are fixed is not specified",
                "displace_links applies its map to every key; displace_cells/displace_cf_ranges visit every formula/range (not under contract)"]
 prop("C12",
-     units=["refshift", "refarms", "strenv", "dispsites", "movecols"],
+     units=["refshift", "refarms", "strenv", "dispsites", "movecols", "colshift"],
      level="proof",
      claim="on insertion every reference coordinate goes through shift(x,p,+k) (so it keeps pointing at the same cell; ranges over the insertion point grow), "
            "off-grid results (row or column) print #REF!, both corners of a range are displaced alike, and link keys / CF corners / the DisplaceData built by insert_rows/insert_columns are the same shift",
      assumptions=DISP_ASSUME,
      residual="cell content/type/style preservation goes through move_cell -> text re-entry (string semantics); array-formula footprints")
 prop("C13",
-     units=["refshift", "refarms", "strenv", "dispsites", "movecols"],
+     units=["refshift", "refarms", "strenv", "dispsites", "movecols", "colshift"],
      level="proof",
      claim="on deletion every reference coordinate goes through shift(x,p,-k): before the band untouched, inside the band => #REF! (None), after it shifted by -k; same for link keys, CF corners and the DisplaceData built by delete_rows/delete_columns",
      assumptions=DISP_ASSUME,
      residual="cell content/type/style preservation via text re-entry; column/row descriptor rebuild (planned unit delcols)")
 prop("C14",
-     units=["refshift", "dispsites"],
+     units=["refshift", "dispsites", "colshift"],
      level="proof",
      claim="lemma over the C12/C13 contracts: shift(shift(x,p,k),p,-k) == x for every coordinate when nothing is pushed off-grid, so formulas references, link keys and CF corners return to their values",
      assumptions=DISP_ASSUME,
@@ -166,6 +166,17 @@ prop("C01",
      assumptions=["A-apply / A-clone as in C02", "A-functional: engine state is a function of the sequence of engine calls; A-setget: setting an attribute back to the value read before the operation restores it",
                   "the order in which apply_undo_diff_list walks the list (.rev()) is not under contract"],
      residual="diffs whose inverse is a re-execution through text (SetCellValue, paste, autofill, borders, named styles, CF, links, DeleteRows/Columns/Sheet data restore); the recording side of most operations")
+
+
+prop("C27",
+     units=["cols", "rows", "colshift"],
+     level="proof",
+     claim="column descriptors stay sorted, non-overlapping and non-degenerate and row descriptors stay unique under every writer under contract: "
+           "the Worksheet setters (cols, rows), the descriptor rebuilds of insert/delete columns and rows (colshift; deletion yields exactly the surviving "
+           "descriptors, shifted), and fresh sheet ids exceed every existing id",
+     assumptions=["A-itermut-drop, A-clone (derived Clone of Col/Row yields an equal value)", "coordinates within +-2^22; sheet ids below u32::MAX (otherwise get_new_sheet_id overflows)"],
+     residual="sheet-name validity/uniqueness (case-insensitive string comparison), style/shared-string/formula index validity, spill anchoring (C31), defined names -> sheets; "
+              "the undo arms that write rows/cols directly (DeleteRows/DeleteColumns/DeleteSheet restore)")
 
 
 def evidence(pid, tier, seed, results, scan_results, kani_results, violations, known_hits, undecided, wall):
